@@ -425,6 +425,12 @@ func runC04Script(c *fw.Ctx, id string, sc c04Script) {
 	}
 	evs := cl.Log.Snapshot()
 	appExecs := map[string]int{}
+	killed := map[int64]bool{} // connections the script killed: a response written on them may never have arrived
+	for _, e := range evs {
+		if e.Kind == "conn-kill" {
+			killed[e.Conn] = true
+		}
+	}
 	for i, e := range evs {
 		switch e.Kind {
 		case "misroute":
@@ -432,7 +438,7 @@ func runC04Script(c *fw.Ctx, id string, sc c04Script) {
 		case "malformed":
 			c.Violate(id, "faults:malformed", e.Info, sc)
 		case "exec-fault":
-			if strings.Contains(e.Info, sim.ExcNoSuchCF) {
+			if strings.Contains(e.Info, sim.ExcNoSuchCF) && !killed[e.Conn] {
 				appExecs[e.OpID]++
 			}
 			if i >= mark && e.OpID != "" {
